@@ -10,6 +10,11 @@ CHECKS = {
          "Executes the real Bquote/Bunquote and the TXT line codec on every byte string of length <=2, a hostile-alphabet cube and seeded random strings and checks the round trip and the absence of separators; exhaustive below length 3, sampled above.",
          "Trusts Go's bytes.Equal and the harness's own chunk decoder; strings longer than 40 bytes are not generated.","4/C17"),
 }
+CHECKS.update({
+ "C16": ("exploration","runtime oracle: insertion-ordered list model vs the real CDB writer/reader over generated and hash-crafted workloads; byte comparison of dump->make",
+         "Writes generated pair sequences with the real writer, reads every key back with FindStart/FindNext (and absent keys, incl. ones crafted to hash into the same wrapped probe region) and compares with an insertion-ordered list model; dump->make must reproduce the file byte for byte from a byte reader and from an *os.File.",
+         "Trusts the harness model and go-spooky (used only to craft collisions, the reader/writer use their own copy). Files up to ~5e4 records.","4/C16"),
+})
 BUILT = set(CHECKS)
 ALL = [json.loads(l)["id"] for l in open("properties.jsonl")]
 m = {
